@@ -158,6 +158,13 @@ class ExprMixin:
         if t in (ast.Is, ast.IsNot):
             r = self.identity(a, b)
             return r if t is ast.Is else b_not(r)
+        if t in (ast.In, ast.NotIn) and is_cset(b):
+            if not (isinstance(a, str) and len(a) == 1):
+                raise Unsupported('only single-character membership is modelled for string cells')
+            r = cs_has(b, z3.IntVal(ord(a)))
+            return r if t is ast.In else b_not(r)
+        if t in (ast.In, ast.NotIn) and isinstance(a, str) and isinstance(b, str):
+            return (a in b) if t is ast.In else (a not in b)
         if t in (ast.In, ast.NotIn):
             items = self.concrete_items(b, st)
             r = b_or(*[self.py_equal(a, x) for x in items])
@@ -252,6 +259,11 @@ class ExprMixin:
             return self.list_repeat(a, b, node, st)
         if op is ast.Add and isinstance(a, str) and isinstance(b, str):
             return a + b
+        if op is ast.Add and is_cset(a) and isinstance(b, str):
+            t = a
+            for ch in b:
+                t = cs_add(t, z3.IntVal(ord(ch)))
+            return t
         if op is ast.Add and isinstance(a, tuple) and isinstance(b, tuple):
             return a + b
         a = self.need_num(a, node)
@@ -437,6 +449,12 @@ class ExprMixin:
             a = self.class_attr(base.name[6:], attr)
             if a is not NotImplemented:
                 return a
+        if isinstance(base, EnumMember):
+            if attr == 'value':
+                return base.value
+            if attr == 'name':
+                return base.name
+            raise Unsupported('enum member attribute .%s' % attr)
         if isinstance(base, (dict, tuple, str)):
             return FuncV('method.' + attr, bound=base)
         raise Unsupported('attribute .%s on %r (line %s, %s)' % (attr, type(base), getattr(node, 'lineno', '?'), self.fname))
